@@ -581,7 +581,7 @@ fn cases(tier: Tier) -> Vec<Case> {
                         desc: format!("containment [a child crashes, its siblings keep getting the broadcasts] children={} cause={cause:?} mailbox={}", tree.len() - 1, mb.name()),
                         exec: ExecCfg { horizon: 30, ..ExecCfg::default() },
                         bound: Some(if tier == Tier::Quick { 3 } else { 6 }),
-                        scene: Box::new(S { nodes: tree.clone(), cause, bcasts: vec![(1, 601), (1, 603)], mailbox: mb, pid: "C06", restart_root: false, slow_stop: None, child_timers: false, late_registration: false }),
+                        scene: Box::new(S { nodes: tree.clone(), cause, bcasts: vec![(1, 601), (1, 603)], mailbox: mb, pid: "C06", restart_root: false, slow_stop: None, child_timers: false, late_registration: false, child_restarts: false }),
                     });
                 }
             }
